@@ -1552,3 +1552,75 @@ pub fn gen_recovery(t: &mut Tape) -> GSpec {
     spec.nts.push(nt("T", false, t_alts));
     spec
 }
+
+// -------------------------------------------------- inlining focus (C14)
+
+/// LR-friendly grammars built for C14: small non-recursive helper
+/// nonterminals with user (partly fallible, partly empty) actions, used
+/// several times and side by side in the alternatives of the start symbol,
+/// with nesting among the helpers. Every helper is an inlining candidate.
+pub fn gen_inline_focus(t: &mut Tape) -> GSpec {
+    let terms: Vec<TermSpec> = (0..8u32).map(|k| extern_term(k, false)).collect();
+    let nterms = terms.len();
+    let mut spec = GSpec { lexer: Lexer::Extern { loc: LocTy::Usize }, terms, nts: vec![], declare_error: true, cx_name: "cx".into(), lt_name: "cx".into() };
+    let n_helpers = 2 + t.below(3);
+    // index 0 = N0, helpers at 1..=n_helpers
+    spec.nts.push(NtSpec { name: "N0".into(), public: true, inline: false, ty: Some(Ty::Str), alts: vec![], cfg: vec![], params: vec![] });
+    let mut var = 0usize;
+    for h in 0..n_helpers {
+        let hi = 1 + h;
+        let n_alts = 1 + t.below(3);
+        let mut alts = vec![];
+        for ai in 0..n_alts {
+            let lead = SymKind::T((2 * h + ai) % nterms);
+            let kinds: Vec<SymKind> = match t.weighted(&[70, 40, if h > 0 { 40 } else { 0 }, 12]) {
+                1 => vec![lead, SymKind::T(t.below(nterms))],
+                2 => vec![lead, SymKind::N(1 + t.below(h))],
+                3 if ai > 0 => vec![],
+                _ => vec![lead],
+            };
+            let fallible = t.chance(90);
+            let mut syms: Vec<SymSpec> = kinds.into_iter().map(SymSpec::plain).collect();
+            let mut style = Style::Angle;
+            if !syms.is_empty() && t.chance(90) {
+                for s in syms.iter_mut() {
+                    var += 1;
+                    s.bind = Bind::Name(format!("v{var}"), false);
+                }
+                style = if t.chance(128) { Style::Names } else { Style::Angle };
+            }
+            alts.push(AltSpec::new(syms, Act::User { fallible, style }));
+        }
+        spec.nts.push(NtSpec { name: format!("H{hi}"), public: false, inline: false, ty: Some(Ty::Str), alts, cfg: vec![], params: vec![] });
+    }
+    let n_alts = 2 + t.below(3);
+    for ai in 0..n_alts {
+        let lead = SymKind::T((7 + nterms - ai) % nterms);
+        let mut kinds = vec![lead];
+        let n_refs = 1 + t.below(3);
+        for _ in 0..n_refs {
+            kinds.push(SymKind::N(1 + t.below(n_helpers)));
+            if t.chance(50) {
+                kinds.push(SymKind::T(t.below(nterms)));
+            }
+        }
+        let fallible = t.chance(50);
+        let mut syms: Vec<SymSpec> = kinds.into_iter().map(SymSpec::plain).collect();
+        let mut style = Style::Angle;
+        if t.chance(110) {
+            for s in syms.iter_mut() {
+                if t.chance(200) {
+                    var += 1;
+                    s.bind = Bind::Name(format!("v{var}"), false);
+                }
+            }
+            if !syms.iter().any(|s| matches!(s.bind, Bind::Name(..))) {
+                var += 1;
+                syms[0].bind = Bind::Name(format!("v{var}"), false);
+            }
+            style = if t.chance(128) { Style::Names } else { Style::Angle };
+        }
+        spec.nts[0].alts.push(AltSpec::new(syms, Act::User { fallible, style }));
+    }
+    spec
+}
